@@ -200,4 +200,59 @@ Proof.
   cbn [pbind]. unfold C02_Auth.auth_url, C02_Auth.auth_ser. f_equal. f_equal; rewrite ?nlen_app; unfold nlen; cbn [length]; lia.
 Qed.
 
+Lemma plain_not_slash c : plainc true c = true -> is_tnl c = false /\ is_slash_or_bslash c = false.
+Proof.
+  unfold plainc, auth_delim, is_slash_or_bslash. intros H. apply andb_true_iff in H. destruct H as [H H3].
+  apply andb_true_iff in H. destruct H as [H1 _]. apply negb_true_iff in H1, H3. split; [exact H1|].
+  destruct (c =? 47), (c =? 92); try reflexivity; cbn in H3; try discriminate;
+    destruct (c =? 63), (c =? 35); discriminate.
+Qed.
+
+Lemma rest_head ui h X : ui_ok ui -> host_ok STSpecialNotFile h ->
+  match ui_text ui ++ hd h ++ X with c :: _ => is_tnl c = false /\ is_slash_or_bslash c = false | [] => False end.
+Proof.
+  intros Hui Hh. destruct (host_ok_sp_ne h Hh) as [_ Ht]. destruct (host_text_facts _ Ht) as [Hf _]. destruct Ht as (_ & Hnn & _).
+  assert (forall u Y, clean T_USERINFO u = true -> u <> [] ->
+            match u ++ Y with c :: _ => is_tnl c = false /\ is_slash_or_bslash c = false | [] => False end) as G.
+  { intros u Y Hu Hne. destruct u as [|c u']; [contradiction|]. cbn [app]. apply plain_not_slash.
+    pose proof (clean_ui_plain true _ Hu) as Hp. cbn [forallb] in Hp. apply andb_true_iff in Hp. tauto. }
+  destruct ui as [|u|u p]; cbn [ui_ok ui_text] in *.
+  - cbn [app]. destruct (hd h) as [|c t]; [contradiction|]. cbn [app]. apply plain_not_slash.
+    cbn [forallb] in Hf. apply andb_true_iff in Hf. tauto.
+  - destruct Hui as [Hu Hne]. rewrite <- app_assoc. apply G; assumption.
+  - destruct Hui as (Hu & _ & _). destruct u as [|c u']; [cbn [app]; split; reflexivity|].
+    rewrite <- app_assoc. apply G; [exact Hu | discriminate].
+Qed.
+
+(* L3 for the class *)
+Theorem reparse_special_form sch ui h pt p q f : auth_ok STSpecialNotFile sch ui h pt p q f -> pth_ok_sp p ->
+  parse_url dbg hp hpo hd None None (auth_ser sch ui h pt p q f) = POk (auth_url sch ui h pt p q f).
+Proof.
+  intros K Kps. pose proof (auth_ser_okc hp hpo hd HOK _ _ _ _ _ _ _ _ K) as Hokc.
+  pose proof (ads_canon_sp _ _ _ _ _ _ _ K Kps) as Hads.
+  destruct K as [Ksch Kst Kui Kh Kemp Kpt Kp Kq Kf Kb Kbq Kbf].
+  unfold parse_url. rewrite trim_c0_id by (apply all_above_edge; apply okc_above; exact Hokc).
+  rewrite (auth_ser_shape hd). rewrite parse_scheme_canon by exact Ksch.
+  unfold parse_with_scheme. rewrite Kst.
+  rewrite to_u32_ok by (rewrite (front_len hd) in Kb; lia). cbn [pbind].
+  rewrite count_matching_2 by (apply rest_head; assumption).
+  exact Hads.
+Qed.
+
+(* L1 for the class, from the input *)
+Theorem parse_special_out input sch rem u : usv_list input ->
+  parse_scheme CUrlParser (input_new_trim_c0 input) = Some (sch, rem) ->
+  scheme_type_of sch = STSpecialNotFile ->
+  parse_url dbg hp hpo hd None None input = POk u ->
+  exists ui h pt p q f, auth_ok STSpecialNotFile sch ui h pt p q f /\ pth_ok_sp p /\ u = auth_url sch ui h pt p q f.
+Proof.
+  intros Hu Hs Hst. unfold parse_url. rewrite Hs. unfold parse_with_scheme. rewrite Hst.
+  destruct (to_u32 (nlen sch)) as [se| |] eqn:Eu; cbn [pbind]; try discriminate.
+  apply to_u32_inv in Eu. destruct Eu as [-> Hb0].
+  pose proof (scheme_rem_usv input sch rem Hu Hs) as Hur.
+  destruct (inp_count_matching is_slash_or_bslash rem) as [n remaining] eqn:Ec.
+  pose proof (count_matching_usv _ _ _ _ Hur Ec) as Hur'.
+  apply ads_out_sp; [exact (parse_scheme_out _ _ _ Hs) | exact Hst | exact Hur'].
+Qed.
+
 End AuthSp.
